@@ -21,6 +21,9 @@ package main
 //     extract  — one record per distinct located region (first occurrences, in order) whose length
 //                differs from the record's (or the only one), each with the residues the library's
 //                Locate gives; with -v exactly the maximal stretches no region covers.
+//     features of extract / circular split (props_c15_feat.go) — read back in input coordinates,
+//                every written feature denotes exactly the residues of its input feature inside its
+//                leaf / piece, on their strand, and every such piece is written.
 //
 // Repaired defects F23 (0f056fc: the GenBank writer panicked on a piece of length 0 — split at
 // position 0 or at the end, extract of a region starting with a zero-length part) and F24
@@ -752,6 +755,9 @@ func c15Oracle(r *Run, c c15Case, line string, res c15Result) {
 		want := c15SplitCount(rr, L, c.circ)
 		if len(outs) != want {
 			fail("split cuts at every distinct located position", fmt.Sprintf("%d pieces", len(outs)), fmt.Sprintf("%d pieces", want), "")
+		} else if c.circ && len(rr) > 0 && !c.fasta {
+			// the feature clause, decided from the denotation (props_c15_feat.go)
+			c15SplitCircularFeatures(r, c, line, rr, outs)
 		}
 	case "rotate":
 		want := in
@@ -780,6 +786,9 @@ func c15Oracle(r *Run, c c15Case, line string, res c15Result) {
 		if !reflect.DeepEqual(got, want) {
 			fail("extract emits, in order and without duplicates, every located region shorter than the record (with -v the maximal unlocated stretches)",
 				strings.Join(got, "|"), strings.Join(want, "|"), "")
+		} else if !c.fasta {
+			// the feature clause, decided from the denotation (props_c15_feat.go)
+			c15ExtractFeatures(r, c, line, regs, outs)
 		}
 	}
 }
